@@ -26,7 +26,7 @@ REPO = os.environ.get('PYVC_REPO', '/repo')
 TRUSTED_BASE = [
     "CPython 3.12 semantics as encoded by pyvc/interp.py (ints mathematical; machine limits of the C layer not modelled)",
     "assumed contracts of bitarray 3.11 / struct / slice arithmetic / hash (pyvc/extern.py, ints.py, search.py, floats.py, files.py), conformance-tested against the installed libraries on an exhaustive small domain at every run, not proved",
-    "z3 5.1.0 as the decision procedure",
+    "z3 5.1.0 as the decision procedure; cvc5 1.0.3 for the goals z3 answers unknown on (only an unsat answer is used)",
     "the pyvc symbolic executor itself (guarded by the CPython cross-check of every proved shape and the concrete smoke test)",
     "termination is not verified",
 ]
@@ -314,7 +314,7 @@ def run_check(prop, tier='quick', seed=0, jobs=None, only=None, write_baseline=F
                                   side_fail=[], unknown_feasibility=0, errors=[], used_contracts=[], wall_s=lim),
                     'replays': [], 'cross': None, 'contract_kind': C.REGISTRY[q].kind, 'stable': sh.stable, 'seconds': lim, 'hard_timeout': True}
         return {'kind': kind, 'crash': f'hard wall limit of {lim:.0f}s exceeded', 'id': str(args[:2])}
-    hard = budget['wall_s'] * 2 + 60
+    hard = float(os.environ.get('PYVC_HARD_WALL', budget['wall_s'] * 2 + 60))
     pool = HardPool(_dispatch, jobs, hard, on_timeout)
     try:
         results = pool.map(tasks)
@@ -652,6 +652,12 @@ def aggregate(prop, tier, seed, results, t_start, write_baseline, extra_mod, qui
         evidence['coverage']['engine_load_errors'] = le[:10]
         lines.append(f'NOTE property={prop}: {len(le)} top-level statement(s) of the package could not be executed by the engine and were skipped '
                      f'(what depends on them is undecided, served by the bounded stand-in): {le[0][:160]}')
+    killed = sorted(f"{r['qualname']}[{r['shape']}]" for r in results if r.get('hard_timeout'))
+    if killed:
+        # nothing at all was explored for these shapes in this run -- neither paths nor the bounded stand-in
+        evidence['coverage']['workers_killed_at_the_hard_wall_limit'] = killed[:50]
+        lines.append(f'NOTE property={prop}: {len(killed)} shape(s) were cut off at the hard wall limit of the worker pool and explored nothing this run '
+                     f'(undecided, not served by the bounded stand-in either): {", ".join(killed)[:200]}')
     if checker_errors:
         evidence['coverage']['checker_errors'] = checker_errors[:20]
     # a run restricted with --only is a debugging aid: its (partial) evidence goes to scratch/ and is not validated
